@@ -25,7 +25,9 @@ WLcdc == IsEvent("wlcdc") /\ UNCHANGED p /\ Regs(p) /\ Quiet
 Adv   == IsEvent("adv") /\ LET r == Run(p, Recs[l].arg) IN
            /\ p' = r.p /\ Regs(r.p)
            /\ Recs[l].vb = B2N("vblank" \in r.req) /\ Recs[l].st = B2N("stat" \in r.req)
-Next == Reset \/ Pos \/ WStat \/ WLyc \/ WLcdc \/ Adv
+\* neither do the other registers of the LCD page; LY is read-only (arg = address * 256 + value)
+WOther == IsEvent("wother") /\ UNCHANGED p /\ Regs(p) /\ Quiet
+Next == Reset \/ Pos \/ WStat \/ WLyc \/ WLcdc \/ WOther \/ Adv
 TraceSpec == Init /\ [][Next]_<<p, l>>
 
 Matched == TLCGet("stats").diameter - 1
